@@ -1063,6 +1063,86 @@ def get_ctx(idx, spec, extra_bits=()):
     return _TCACHE[key]
 
 
+def vacuous_size_guards(c, d, N):
+    """Generation-time guards of driver `d` of the form `N > k` / `N >= k` / `k < N` ... (N: the size expression, normalised)
+    that change nothing: for every size the guard excludes, the loop nest around the driver has no iteration at all, so the
+    statement is not emitted with or without the guard.  Decided by running the *loop bounds* (integer arithmetic over N and the
+    enclosing loop indices) for each excluded size.  Returns the set of such frames."""
+    import operator
+    ops = {'<': operator.lt, '<=': operator.le, '>': operator.gt, '>=': operator.ge, '==': operator.eq, '!=': operator.ne}
+    N = c.norm(N)
+
+    class Unknown(Exception):
+        pass
+
+    def ev(e, env, n):
+        e = c.norm(e)
+        if e == N:
+            return n
+        k = e[0]
+        if k == 'const' and isinstance(e[1], int) and not isinstance(e[1], bool):
+            return e[1]
+        if k == 'idx' and e[1] in env:
+            return env[e[1]]
+        if k == 'lin':
+            return e[1] + sum(co * ev(t, env, n) for t, co in e[2])
+        if k == 'bin' and e[1] in ('+', '-', '*', '//', '%'):
+            a, b = ev(e[2], env, n), ev(e[3], env, n)
+            if e[1] in ('//', '%') and b == 0:
+                raise Unknown()
+            return {'+': a + b, '-': a - b, '*': a * b, '//': a // b if b else 0, '%': a % b if b else 0}[e[1]]
+        if k == 'call' and e[1] == ('name', 'len') and len(e[2]) == 1:
+            inner = c.norm(e[2][0])
+            if ('call', ('name', 'len'), (inner,), ()) == N or c.norm(('call', ('name', 'len'), (inner,), ())) == N:
+                return n
+        raise Unknown()
+
+    def iterations(frames, env, n):
+        """Does the loop nest `frames` (outermost first) have at least one iteration for size n?"""
+        if not frames:
+            return True
+        L = c.t.loops.get(frames[0])
+        if L is None:
+            raise Unknown()
+        if L.kind == 'range' and L.bounds is not None:
+            lo, hi = ev(L.bounds[0], env, n), ev(L.bounds[1], env, n)
+            rng = range(lo, hi)
+        elif L.seq is not None and c.norm(('call', ('name', 'len'), (c.norm(L.seq),), ())) == N:
+            rng = range(0, n)
+        else:
+            raise Unknown()
+        for v in rng:
+            if iterations(frames[1:], {**env, L.id: v}, n):
+                return True
+        return False
+
+    out = set()
+    loops = [fr[1] for fr in d.gen if fr[0] == 'for']
+    for fr in d.gen:
+        if fr[0] != 'pyif':
+            continue
+        cn = c.norm(fr[1])
+        if cn[0] != 'cmp' or cn[1] not in ops:
+            continue
+        excluded = None
+        for a, b, flip in ((cn[2], cn[3], False), (cn[3], cn[2], True)):
+            if a == N and b[0] == 'const' and isinstance(b[1], int) and not isinstance(b[1], bool):
+                f = (lambda n, b=b, flip=flip: ops[cn[1]](b[1], n) if flip else ops[cn[1]](n, b[1]))
+                vals = [n for n in range(0, 66) if bool(f(n)) != bool(fr[2])]
+                # the guard must exclude an initial segment of sizes only (a lower bound on the size)
+                if vals and vals == list(range(0, len(vals))) and len(vals) <= 8:
+                    excluded = vals
+        if not excluded:
+            continue
+        # loops inside the guard and loops outside of it both count: the statement needs an iteration of each
+        try:
+            if not any(iterations(loops, {}, n) for n in excluded) and loops:
+                out.add(fr)
+        except Unknown:
+            pass
+    return out
+
+
 def require_supported(rep, rule, c):
     """Unsupported constructs inside an anchored elaborate() make the whole pack undecided."""
     ok = True
